@@ -891,18 +891,78 @@ func (c *Ctx) phyloxmlTables() {
 	// reader: Clade field -> tree attribute (field of tree.Node/Edge written through a setter fed by c.Field)
 	cparam := paramObj(info, rd.Decl, 0)
 	readAttr := map[string]string{}
-	for _, st := range c.fieldStores(info, rd.Decl.Body, nil) {
-		if st.rhs == nil {
-			continue
+	// the Clade fields an expression of the converter is made of: c.Field directly, through a local
+	// defined once, or through a helper that receives the clade and returns one of its fields
+	var cladeFields func(e ast.Node, depth int) []string
+	cladeFields = func(e ast.Node, depth int) []string {
+		var out []string
+		if e == nil || depth > 3 {
+			return out
 		}
-		ast.Inspect(st.rhs, func(n ast.Node) bool {
-			if sel, ok := n.(*ast.SelectorExpr); ok && identObj(info, sel.X) == cparam {
-				if _, seen := readAttr["Clade."+sel.Sel.Name]; !seen {
-					readAttr["Clade."+sel.Sel.Name] = st.field.Name()
+		ast.Inspect(e, func(n ast.Node) bool {
+			switch x := n.(type) {
+			case *ast.SelectorExpr:
+				if identObj(info, x.X) == cparam {
+					out = append(out, x.Sel.Name)
+				}
+			case *ast.Ident:
+				if lo, isVar := info.Uses[x].(*types.Var); isVar && !lo.IsField() && lo != cparam {
+					if defs := localDefs(info, rd.Decl.Body, lo); len(defs) == 1 {
+						out = append(out, cladeFields(defs[0], depth+1)...)
+					}
+				}
+			case *ast.CallExpr:
+				fn := calleeOf(info, x)
+				gi := c.FuncOfObj(fn)
+				if fn == nil || gi == nil || gi.Decl.Body == nil || !inRepo(fn) || gi.Pkg != rd.Pkg {
+					return true
+				}
+				for k, a := range x.Args {
+					if identObj(info, a) != cparam {
+						continue
+					}
+					p := paramObj(info, gi.Decl, k)
+					ast.Inspect(gi.Decl.Body, func(m ast.Node) bool {
+						ret, isRet := m.(*ast.ReturnStmt)
+						if !isRet {
+							return true
+						}
+						for _, r := range ret.Results {
+							ast.Inspect(r, func(q ast.Node) bool {
+								if sel, isSel := q.(*ast.SelectorExpr); isSel {
+									// c.Name, or c.Tax.ScientificName: the field of the clade itself
+									base := sel
+									for {
+										inner, isInner := unparen(base.X).(*ast.SelectorExpr)
+										if !isInner {
+											break
+										}
+										base = inner
+									}
+									if identObj(info, base.X) == p && p != nil {
+										out = append(out, base.Sel.Name)
+									}
+								}
+								return true
+							})
+						}
+						return true
+					})
 				}
 			}
 			return true
 		})
+		return out
+	}
+	for _, st := range c.fieldStores(info, rd.Decl.Body, nil) {
+		if st.rhs == nil {
+			continue
+		}
+		for _, fld := range cladeFields(st.rhs, 0) {
+			if _, seen := readAttr["Clade."+fld]; !seen {
+				readAttr["Clade."+fld] = st.field.Name()
+			}
+		}
 	}
 	// writer: per string literal with an opening tag, the tree attribute read by the other Sprintf arguments
 	type wtag struct {
